@@ -9,8 +9,8 @@ CONSTANTS
   LocalOps = {"read", "read1", "write", "bigwrite", "flush", "close", "close_read", "drop"}
   EnvOps = {"eof", "block", "unblock"}
   Frames = {"data", "big", "fin", "stop", "reset"}
-INIT Init
-NEXT Next
+INIT GInit
+NEXT GNext
+VIEW GView
 CONSTRAINT WireBound
-INVARIANT NoBadTransition ReadOnlyWhileOpen WriteOnlyWhileOpen NoDataAfterFin FlagsSentOnce AfterReset
-PROPERTY ResetIsFinal
+ACTION_CONSTRAINT EmitEdge
